@@ -31,7 +31,7 @@ def main():
         return 2
     dest = m1.group(1)
     dest = re.sub(r'^/tmp/seed\d*_C\d+/', '', dest)
-    dest = dest.replace('<checkout>/', '')
+    dest = dest.replace('<checkout>/', '').replace('<worktree>/', '')
     testsel = m2.group(1) + ' ' + (m2.group(2) or '')
     wt = '/tmp/seedconfirm_wt'
     subprocess.call(['git', '-C', '/repo', 'worktree', 'remove', '--force', wt], stderr=subprocess.DEVNULL)
